@@ -19,7 +19,7 @@ SPEC = {
                     "reference refuses (many-to-many matching ...) promises nothing",
                     "HTTP 204 acknowledges a remote write; the samples are awaited with an InfluxQL count per series before the first PromQL query",
                     "an empty answer is an empty answer whatever resultType the server prints",
-                    "answers larger than 4 MiB or later than 25 s are violations (the reference answers are a few KiB)",
+                    "answers larger than 4 MiB or later than 15 s are violations (the reference answers are a few KiB)",
                     "known-finding classes (see known_test.go, one replay each) are left out of the generated expressions and counted under excluded_by_construction",
                     "discrepancies that disappear on retry / on a freshly started server are counted (classes transient_discrepancy_not_reproduced_on_retry, "
                     "discrepancy_not_reproduced_on_fresh_server) and logged, not failed: they are not re-executable"],
